@@ -1,7 +1,7 @@
 """C08 harness: error messages are total and complete.
 
 Failing conversions are produced by the real converters from values whose SHAPE is symbolic: one or two faults, chosen by
-the solver among 18 fault sites (wrong kind at depth 1-4, missing / unexpected / duplicated keys, mixed-kind unexpected keys,
+the solver among 20 fault sites (wrong kind at depth 1-4, missing / unexpected / duplicated keys, mixed-kind unexpected keys,
 failing and raising predicates, raising validation hook, wrong tuple length, sums inside products inside sums, fused
 single-child chains, several missing fields one of which has aliases, union alternatives with one description), with concrete sentinel leaves (rendering would realise symbolic ones).  Each injected fault carries
 the tokens the text must contain, in nesting order.  Oracle: containment rules read off the property statement.
@@ -62,6 +62,8 @@ TOP = {
     'pos': t.Annotated[int, Condition(_pred, 'is_lucky')],
     'deep': {'x': {'y': {'z': int}}},
     'seq': t.Tuple[int, t.List[int]],
+    'setl': t.Set[t.Tuple[int, t.List[int]]],            # items convert, building the set raises (unhashable): a cause to report
+    'deep2': {'x': {'y': {'z': int}, 'm': int}},
     'req': Req,
     'box': t.Optional[t.Union[Box[int], Box[t.List[int]]]],       # two alternatives with the same description
 }
@@ -84,7 +86,8 @@ def sentinel(k):
 
 def valid():
     return {'top': {'leaf': {'n': 1, 's': 'ok'}, 'items': [1, {'n': 2}], 'alt': 1, 'al': 0}, 'pos': 5,
-            'deep': {'x': {'y': {'z': 3}}}, 'seq': (1, [2, 3]), 'req': {'w': 1, 'v': 2}, 'box': {'item': 1}}
+            'deep': {'x': {'y': {'z': 3}}}, 'seq': (1, [2, 3]), 'req': {'w': 1, 'v': 2}, 'box': {'item': 1},
+            'setl': [], 'deep2': {'x': {'y': {'z': 3}, 'm': 1}}}
 
 
 def inject(d, site, k, reqs):
@@ -155,6 +158,15 @@ def inject(d, site, k, reqs):
         reqs.append(['box', 'item', 'an int'])
         reqs.append(['box', 'item', '0', 'an int', 'SENTel'])
         reqs.append(['box', 'label', 'a string'])
+    elif site == 19:
+        d['setl'] = [[1, [2]]]
+        reqs.append(['setl', 'unhashable type'])
+    elif site == 20:
+        del d['deep2']['x']['m']
+        d['deep2']['x']['y']['z'] = s
+        reqs.append(['deep2', 'x', 'y', 'z', 'an int', shown])
+        reqs.append(['Missing required field'])
+        reqs.append(['deep2', 'x', "m'"])
     elif site == 14:
         d['seq'] = (s if k != 3 else 'x', [2, s])
         reqs.append(['seq', '0', 'an int'])
@@ -219,7 +231,7 @@ def check_render(s1, k1, s2, k2):
     return -1
 
 
-for _s1 in range(19):
+for _s1 in range(21):
     for _s2 in (0, 3, 9):
         for _k in range(4):
             try:
@@ -228,11 +240,11 @@ for _s1 in range(19):
                 pass
 
 _T = '''
-@obligation(pre="{lo} <= s1 <= {hi} and 0 <= k1 <= 3 and 0 <= s2 <= 18 and 0 <= k2 <= 3 and (s2 == 0 or k2 == 0 or s2 in (1, 4, 5, 9, 14, 16, 17)) and (k1 == 0 or s1 in (1, 4, 5, 9, 14, 16, 17))",
+@obligation(pre="{lo} <= s1 <= {hi} and 0 <= k1 <= 3 and 0 <= s2 <= 20 and 0 <= k2 <= 3 and (s2 == 0 or k2 == 0 or s2 in (1, 4, 5, 9, 14, 16, 17, 20)) and (k1 == 0 or s1 in (1, 4, 5, 9, 14, 16, 17, 20))",
             witnesses={wit}, timeout=300)
 def body_render_{lo}(s1: int, k1: int, s2: int, k2: int) -> int:
     """rendering the error of a conversion with one or two injected faults (first fault site {lo}..{hi}) never raises, is stable, and names every failing path component, expectation, key and cause"""
     return check_render(s1, k1, s2, k2)
 '''
-for (_lo, _hi) in ((0, 1), (2, 3), (4, 5), (6, 8), (9, 10), (11, 12), (13, 15), (16, 16), (17, 17), (18, 18)):
+for (_lo, _hi) in ((0, 1), (2, 3), (4, 5), (6, 8), (9, 10), (11, 12), (13, 15), (16, 16), (17, 17), (18, 18), (19, 20)):
     exec(_T.format(lo=_lo, hi=_hi, wit=(0, -1) if _lo == 0 else (-1,)))
